@@ -957,7 +957,15 @@ class Builder:
                             edits.append(Edit(st + len(am.group(2)), cp, [Seg(")", "repo", fn=qual)]))
                         elif om:
                             st = op + 1 + len(om.group(1))
-                            edits.append(Edit(st, op + 1 + om.end(), [Seg("vx_once(", "repo", fn=qual)]))
+                            byref = m[op + 1 + om.end():cp].lstrip().startswith("&")
+                            edits.append(Edit(st, op + 1 + om.end(), [Seg("vx_once_ref(" if byref else "vx_once(", "repo", fn=qual)]))
+                        else:
+                            # an optional source: `OPT.into_iter().flatten()` yields the bytes of the inner source, or nothing
+                            fm = re.search(r"\.\s*into_iter\s*\(\s*\)\s*\.\s*flatten\s*\(\s*\)\s*,?\s*$", arg)
+                            if fm:
+                                lead = len(arg) - len(arg.lstrip())
+                                edits.append(Edit(op + 1 + lead, op + 1 + lead, [Seg("vx_opt_src(", "repo", fn=qual)]))
+                                edits.append(Edit(op + 1 + fm.start(), cp, [Seg(")", "repo", fn=qual)]))
                         pos = cp + 1
                         dm = re.match(r"\s*\.\s*(?:copied|cloned)\s*\(\s*\)", m[pos:b])
                         if dm:
